@@ -234,6 +234,11 @@ def r1(F, X, rep):
     rid = "C17-R1"
     rep.rule(rid, "the per-request task sends exactly one reply on every path, tagged with the request's id and exactly one of result/error")
     cl = _spawned_request_closure(F, X)
+    # the hand-off to the writer must not be lossy: on the bounded reply channel only the awaited `send` delivers always
+    lossy = [c for b in F.code_bodies() if "src/cln_plugin/" in b.span.get("f", "") for c in b.calls
+             if re.match(r"^tokio::sync::mpsc::(Sender|UnboundedSender)::(try_send|send_timeout|blocking_send|try_reserve|try_reserve_owned)$", c.name) and "serde_json::Value" in (c.full or "") and not c.noise]
+    rep.ob(rid, not lossy, lossy[0].body.cdef if lossy else "cln_plugin", "replies are handed to the writer with an awaited send", where=lossy[0].loc if lossy else "", how="no try_send / send_timeout on the reply channel",
+           detail="" if not lossy else "%s at %s: when the bounded reply channel is full (several handlers finishing at once) the reply is dropped and that request id is never answered" % (lossy[0].name, lossy[0].loc))
     if not rep.anchor(rid, "spawned per-request task (sends a Value on Plugin::sender)", len(cl), 1):
         return
     for b, sends in cl:
@@ -261,8 +266,7 @@ def r1(F, X, rep):
     rep.anchor(rid, "tokio::spawn of the per-request task", len(sp), 1)
 
 
-def r2(F, X, rep):
-    rid = "C17-R2"
+def r2(F, X, rep, rid="C17-R2"):
     rep.rule(rid, "the reader future raced in the driver loop awaits only FramedRead::next and does nothing before it; handlers run in spawned tasks")
     runs = [b for b in F.code_bodies() if b.coroutine and "src/cln_plugin/" in b.span.get("f", "") and ml.selects(b, X)]
     if not rep.anchor(rid, "driver loop with select!", len(runs), 1):
